@@ -53,9 +53,12 @@ func (p *prngSrc) intn(n int, _ string) int {
 //     including 0x00 and 0xFF can occur); length limits 256/256/1024 by default;
 //   * series dictionary: the 8-byte little-endian xxhash of the tags, i.e. fixed-length keys of
 //     arbitrary bytes.
-// The empty key is never stored (empty metric name / tag value are rejected, the namespace is
-// indexed by its first byte); it only appears as a *probe* (`where host = ''`, suggest prefix "").
-// Key sets containing the empty key are therefore only explored in the informational test.
+// The empty key is not stored by today's writers (empty metric name / tag value are rejected, the
+// namespace is indexed by its first byte); in production it appears as a *probe* (`where host = ''`,
+// suggest prefix ""). The property text names it all the same and the dictionary API accepts it,
+// so the styles below stay non-empty and the empty key is added on purpose: by
+// TestBucketDegenerate (degenerate_test.go), in 1 of 4 cases of TestBucketSortedMap, as an injected
+// key of TestFlushReadMerge and in every case of TestTrieEmptyKeyStored.
 
 type keyStyle struct {
 	name     string
